@@ -16,7 +16,7 @@ from yalafi import defs as ydefs
 
 STEP_A = 400000        # budget = STEP_A + STEP_B * len(source [+ defs])
 STEP_B = 6000
-CPU_SECONDS = 60
+CPU_SECONDS = 30
 
 DIAG_KINDS = [('cannot find closing', 'diag_open_argument'), ('missing end of maths', 'diag_open_maths'),
               ('bad \\verb', 'diag_bad_verb'), ('missing end of verbatim', 'diag_open_verbatim'),
